@@ -1,7 +1,7 @@
 """C03 — parser-state combinators are all-or-nothing and match exactly."""
 from props.common import *
 
-MODULE = "PestModel.Thm.C03"
+MODULE = ["PestModel.Thm.C03", "PestModel.Thm.C03Prim"]
 DRV, MODE = "drv_prog", "prog"
 
 
@@ -49,7 +49,7 @@ def run(ctx):
         "mismatches": sum(len(c.mismatch) for c in allcs), "oracle_failures": sum(len(c.oracle_fail) for c in allcs),
     })
     if ctx.thorough() and not problems:
-        okc, outc = leanchecker([MODULE, "PestModel.Model.PState"])
+        okc, outc = leanchecker(MODULE + ["PestModel.Model.PState"])
         cov["leanchecker"] = "ok" if okc else outc
     ctx.evidence(level_of(ctx.prop), cov, [
         "theorems are about PestModel.PS.run (hand-written model of parser_state.rs / position.rs); tie = correspondence on the complete state snapshot after every generated call tree",
